@@ -107,11 +107,24 @@ func (d *gdriver) somePoints(n int) data.Points {
 	return out
 }
 
+// newEdge returns the points of an edge-creating message: usually a tombstone-0 point plus the node
+// type, sometimes the node type alone or with another edge point (the node type is all the store needs).
+func (d *gdriver) newEdge(typ string) data.Points {
+	switch d.r.Intn(8) {
+	case 0:
+		return data.Points{{Type: data.PointTypeNodeType, Text: typ}}
+	case 1:
+		return data.Points{{Type: data.PointTypeNodeType, Text: typ}, {Type: "sortOrder", Time: d.now(), Value: float64(d.r.Intn(9))}}
+	default:
+		return data.Points{{Type: data.PointTypeTombstone, Time: d.now(), Value: 0}, {Type: data.PointTypeNodeType, Text: typ}}
+	}
+}
+
 // create makes a new node of type typ under parent. pointsFirst sends node
 // points before the first edge.
 func (d *gdriver) create(parent, typ string, pointsFirst bool) (string, error) {
 	id := d.newID()
-	edge := data.Points{{Type: data.PointTypeTombstone, Time: d.now(), Value: 0}, {Type: data.PointTypeNodeType, Text: typ}}
+	edge := d.newEdge(typ)
 	if pointsFirst {
 		if e, err := d.sendNode(id, d.somePoints(1+d.r.Intn(3))); err != nil || e != "" {
 			return id, fmt.Errorf("create %s: node points refused: %v %s", id, err, e)
@@ -230,7 +243,7 @@ func (d *gdriver) randomLegalOp() (string, error) {
 		if d.g.HasEdge(np, id) || d.g.WouldCycle(id, np) {
 			return "mirror-skip", nil
 		}
-		e, err := d.sendEdge(id, np, data.Points{{Type: data.PointTypeTombstone, Time: d.now(), Value: 0}, {Type: data.PointTypeNodeType, Text: d.g.Types[id]}})
+		e, err := d.sendEdge(id, np, d.newEdge(d.g.Types[id]))
 		if err == nil && e != "" {
 			err = fmt.Errorf("legal mirror refused: %s", e)
 		}
@@ -244,7 +257,7 @@ func (d *gdriver) randomLegalOp() (string, error) {
 		if np == "" || d.g.HasEdge(np, id) || d.g.WouldCycle(id, np) {
 			return "move-skip", nil
 		}
-		e, err := d.sendEdge(id, np, data.Points{{Type: data.PointTypeTombstone, Time: d.now(), Value: 0}, {Type: data.PointTypeNodeType, Text: d.g.Types[id]}})
+		e, err := d.sendEdge(id, np, d.newEdge(d.g.Types[id]))
 		if err == nil && e == "" {
 			e, err = d.sendEdge(id, parent, data.Points{{Type: data.PointTypeTombstone, Time: d.now(), Value: 1}})
 		}
